@@ -29,6 +29,22 @@ def _no_reports(cbs, allowed=()):
 
 
 def check(state, ev, ctx, obs):
+    if not _check(state, ev, ctx, obs):
+        return False
+    # timer facts the RFC states for whole classes of transitions (only when the observation carries timers)
+    tm = obs.get('timers')
+    if tm is not None:
+        st = obs['state']
+        if state == CONNECT and ev == 'tcp_ok' and st == OPENSENT:
+            # "stops the ConnectRetryTimer (if running) and sets it to zero ... sets the HoldTimer to a large value"
+            # (a timer left armed but without effect in Idle is not judged: the property speaks of state, messages and
+            # closes; what a stale timer does when it fires is judged by the sequence obligations)
+            if tm['connect_retry'] is not None or tm['hold'] is None:
+                return False
+    return True
+
+
+def _check(state, ev, ctx, obs):
     st, wr, close, conn, cbs = obs['state'], obs['writes'], obs['close'], obs['connects'], obs['cbs']
     in_session = state in (OPENSENT, OPENCONFIRM, ESTABLISHED)
 
